@@ -35,7 +35,7 @@ def findings_table():
 
 def seeded_table():
     rows = ['| change | what it does | own check | all alarming checks | failing obligations |', '|---|---|---|---|---|']
-    for d in sorted(glob.glob(V + '/seeded/C*-m*')):
+    for d in sorted(glob.glob(V + '/seeded/C*-[mn]*')):
         id = os.path.basename(d)
         meta = {}
         if os.path.exists(d + '/meta.json'):
